@@ -392,6 +392,10 @@ FRESH = [
     (_CAUGHT % "new Array(-1)", "RangeError", True), (_CAUGHT % "JSON.parse('{')", "SyntaxError", True), (_CAUGHT % "new RegExp('(')", "SyntaxError", True),
     (_CAUGHT % "(1).toFixed(1000)", "RangeError", True),
     ("(function(){})", "Function", True), ("(function(){}).prototype", "Object", True), ("new Function('return 1')", "Function", True), ("new Function('return 1').prototype", "Object", True),
+    ("new Function()", "Function", True), ("Function()", "Function", True), ("new Function().prototype", "Object", True), ("new Function('')", "Function", True),
+    ("new Function('a', 'return a')", "Function", True), ("eval('(function(){})')", "Function", True), ("(() => 1)", "Function", True), ("new RegExp('')", "RegExp", True),
+    ("new RegExp('a', 'g')", "RegExp", True), ("RegExp('a')", "RegExp", True), ("new Array()", "Array", True), ("new Object()", "Object", True), ("Object()", "Object", True),
+    ("new Array(0)", "Array", True), ("Array()", "Array", True), ("[].concat()", "Array", True), ("''.match(/(?:)/)", "Array", True),
     ("(function(){}).bind(null)", "Function", True), ("Object.create(null)", None, False), ("Object.create({})", "Object", False), ("new (function K(){})()", "Object", False),
     ("new Object()", "Object", True), ("new Array()", "Array", True), ("Array(0)", "Array", True), ("new Array(2)", "Array", True), ("[].slice()", "Array", True), ("[1].concat()", "Array", True),
     ("[].map(function(x){ return x; })", "Array", True), ("[].filter(function(x){ return x; })", "Array", True), ("/a/.exec('a')", "Array", True), ("'aa'.match(/a/g)", "Array", True),
